@@ -31,10 +31,12 @@ TIERS = {
 }
 
 VAR_NAMES = ['$', '$1', '', 'a', '$a', 'b']
-FN_QUERIES = ['f', 'g', 'f_', 'h', 'nosuch']
+FN_QUERIES = ['f', 'g', 'f_', 'h', 'nosuch', 'to_up', 'toUp', 'get_it',
+              'getIt']
 SENT = object()
-DEFAULT_NAMES = ['f', 'g', 'h', 'f', 'g', 'f']
-KINDS = {'f': 'F', 'g': 'F', 'h_': 'F', 'f2': 'F', 'm': 'FM', 'mm': 'M'}
+DEFAULT_NAMES = ['f', 'g', 'h', 'f', 'g', 'f', 'to_up', 'get_it']
+KINDS = {'f': 'F', 'g': 'F', 'h_': 'F', 'f2': 'F', 'm': 'FM', 'mm': 'M',
+         'to_up': 'F', 'gi': 'F'}
 
 
 def norm(name):
@@ -57,7 +59,9 @@ class Cell:
 
 
 class MNode:
-    def __init__(self, kind, parent=None, members=None, linked=None):
+    def __init__(self, kind, parent=None, members=None, linked=None,
+                 conv=False):
+        self.conv = conv            # plain nodes: naming convention in effect
         self.kind = kind
         self.parent = parent        # plain: parent node; linked: own parent
         self.members = members
@@ -94,6 +98,35 @@ def layers(n):
     return layers(n.linked) + (layers(n.parent) if n.parent is not None else [])
 
 
+def eff_conv(n):
+    """convention a context hands on to its children (uniform per forest:
+    every root is created with the same setting and linked contexts always
+    have a parent when a convention is in use)"""
+    if n.kind == 'plain':
+        return n.conv
+    if n.kind == 'multi':
+        return eff_conv(n.members[0])
+    return eff_conv(n.parent) if n.parent is not None else False
+
+
+def camel(name):
+    c = _conv[0]
+    if c is None:
+        from yaql.language import conventions
+        c = _conv[0] = conventions.CamelCaseConvention()
+    return c.convert_function_name(name)
+
+
+_conv = [None]
+
+
+def lookup_name(p, name, use_conv):
+    name = name.rstrip('_')
+    if use_conv and p.conv:
+        return camel(name)
+    return name
+
+
 def m_get(n, name, own_only=False):
     name = norm(name)
     ls = layers(n)
@@ -120,43 +153,55 @@ def m_keys(n):
     return sorted(seen)
 
 
-def m_get_functions(n, name):
-    name = name.rstrip('_')
+def m_get_functions(n, name, use_conv=False):
     labels = []
+    objs = set()
     seen = set()
     excl = False
     for p in ownlayer(n):
+        key = lookup_name(p, name, use_conv)
         if id(p) in seen:
             # a plain context listed twice contributes its set once
             # (union semantics)
-            if name in p.cell.excl:
+            if key in p.cell.excl:
                 excl = True
             continue
         seen.add(id(p))
-        labels.extend(e['label'] for e in p.cell.funcs.get(name, []))
-        if name in p.cell.excl:
+        for e in p.cell.funcs.get(key, []):
+            # the same definition object held by two members counts once
+            if e['obj'] is not None and id(e['obj']) in objs:
+                continue
+            objs.add(id(e['obj']))
+            labels.append(e['label'])
+        if key in p.cell.excl:
             excl = True
     return sorted(labels), excl
 
 
-def m_collect(n, name, kind=None):
+def m_collect(n, name, kind=None, use_conv=False):
     """kind: None | 'F' (functions only) | 'M' (methods only) - the filter
     runner.call applies; exclusivity does not depend on it."""
-    name = name.rstrip('_')
     out = []
     for layer in layers(n):
         labels = []
+        objs = set()
         seen = set()
         excl = False
         for p in layer:
-            if name in p.cell.excl:
+            key = lookup_name(p, name, use_conv)
+            if key in p.cell.excl:
                 excl = True
             if id(p) in seen:
                 continue
             seen.add(id(p))
-            labels.extend(e['label'] for e in p.cell.funcs.get(name, [])
-                          if kind is None or
-                          kind in KINDS[e['label'].split('/')[0]])
+            for e in p.cell.funcs.get(key, []):
+                if kind is not None and \
+                        kind not in KINDS[e['label'].split('/')[0]]:
+                    continue
+                if e['obj'] is not None and id(e['obj']) in objs:
+                    continue
+                objs.add(id(e['obj']))
+                labels.append(e['label'])
         if labels:
             out.append(sorted(labels))
         if excl:
@@ -171,7 +216,10 @@ def m_collect(n, name, kind=None):
 def gen_case(seeds, params, index):
     w = seeds.stream('workload')
     nops = w.randrange(6, params['max_ops'] + 1)
-    ops = [{'op': 'new', 'id': 0}]
+    # one naming convention per forest (how a convention is inherited through
+    # multi / linked compositions is not part of the property)
+    conv = w.random() < 0.5
+    ops = [{'op': 'new', 'id': 0, 'conv': conv}]
     ids = [0]
     kinds = {0: 'plain'}
     nid = 1
@@ -181,7 +229,7 @@ def gen_case(seeds, params, index):
         r = w.random()
         c = w.choice(ids)
         if len(ids) < 12 and r < 0.10:
-            ops.append({'op': 'new', 'id': nid})
+            ops.append({'op': 'new', 'id': nid, 'conv': conv})
             kinds[nid] = 'plain'
             ids.append(nid)
             nid += 1
@@ -198,7 +246,7 @@ def gen_case(seeds, params, index):
             ids.append(nid)
             nid += 1
         elif len(ids) < 12 and r < 0.40:
-            par = w.choice(ids) if w.random() < 0.9 else None
+            par = w.choice(ids) if (conv or w.random() < 0.9) else None
             ops.append({'op': 'linked', 'parent': par, 'linked': w.choice(ids),
                         'id': nid})
             kinds[nid] = 'linked'
@@ -212,11 +260,14 @@ def gen_case(seeds, params, index):
         elif r < 0.72:
             ops.append({'op': 'del', 'ctx': c, 'name': w.choice(VAR_NAMES)})
         elif r < 0.90:
-            ops.append({'op': 'reg', 'ctx': c, 'func': w.randrange(6),
+            ops.append({'op': 'reg', 'ctx': c, 'func': w.randrange(8),
                         'name': w.choice([None, None, 'f', 'g']),
                         'exclusive': w.random() < (0.4 if bias < 0.5 else 0.15),
                         'prebuilt': w.random() < 0.5})
-        elif r < 0.95:
+        elif r < 0.925:
+            # the very same definition object registered once more somewhere
+            ops.append({'op': 'reg_again', 'ctx': c, 'pick': w.randrange(1000)})
+        elif r < 0.96:
             ops.append({'op': 'delfn', 'ctx': c, 'pick': w.randrange(1000),
                         'name': w.choice(['f', 'g', 'h'])})
         else:
@@ -241,12 +292,16 @@ def make_functions():
          'def f2(*a):\n    return 3\n'
          'def m(x):\n    return 4\n'
          'def mm(x):\n    return 6\n'
+         'def to_up(x):\n    return 7\n'
+         'def gi(x):\n    return 8\n'
          'def bad(x):\n    return 5\n', ns)
     ns['mm'] = specs.method(specs.name('f')(ns['mm']))
+    ns['gi'] = specs.name('get_it')(ns['gi'])
     ns['f2'] = specs.name('f')(ns['f2'])
     ns['m'] = specs.extension_method(specs.name('g')(ns['m']))
     ns['bad'] = specs.method(specs.parameter('x', yaqltypes.Lambda())(ns['bad']))
-    return [ns['f'], ns['g'], ns['h_'], ns['f2'], ns['m'], ns['mm']], ns['bad']
+    return [ns['f'], ns['g'], ns['h_'], ns['f2'], ns['m'], ns['mm'],
+            ns['to_up'], ns['gi']], ns['bad']
 
 
 def label(fd):
@@ -281,8 +336,11 @@ def execute(case, stats):
         nsteps += 1
         try:
             if k == 'new':
-                n = MNode('plain')
-                n.impl = contexts.Context()
+                n = MNode('plain', conv=bool(op.get('conv')))
+                from yaql.language import conventions
+                n.impl = contexts.Context(
+                    convention=conventions.CamelCaseConvention()
+                    if op.get('conv') else None)
                 nodes[op['id']] = n
             elif k == 'child':
                 p = nodes[op['of']]
@@ -294,7 +352,7 @@ def execute(case, stats):
                     stats.inc('fault.failed_op.' + type(e).__name__)
                     impl = None
                 if impl is not None:
-                    n = MNode('plain', parent=p)
+                    n = MNode('plain', parent=p, conv=eff_conv(p))
                     n.impl = impl
                     nodes[op['id']] = n
             elif k == 'multi':
@@ -368,7 +426,9 @@ def execute(case, stats):
                     regname = spec.name
                     obj = spec
                 else:
-                    exp_name = op['name'] or DEFAULT_NAMES[op['func']]
+                    exp_name = op['name'] or (
+                        camel(DEFAULT_NAMES[op['func']]) if target.conv
+                        else DEFAULT_NAMES[op['func']])
                     before = set(target.impl.get_functions(exp_name)[0])
                     n.impl.register_function(fn, exclusive=op['exclusive'],
                                              **kw)
@@ -386,6 +446,23 @@ def execute(case, stats):
                 if op['exclusive']:
                     target.cell.excl.add(regname)
                     stats.inc('fault.exclusive_registration')
+            elif k == 'reg_again':
+                n = nodes[op['ctx']]
+                cands = []
+                for p in plain_nodes():
+                    for lst in p.cell.funcs.values():
+                        for e in lst:
+                            if e['obj'] is not None:
+                                cands.append(e)
+                if cands:
+                    e = cands[op['pick'] % len(cands)]
+                    spec = e['obj']
+                    n.impl.register_function(spec)
+                    target = ownlayer(n)[0]
+                    lst = target.cell.funcs.setdefault(spec.name, [])
+                    if not any(x['obj'] is spec for x in lst):
+                        lst.append({'label': e['label'], 'obj': spec})
+                    stats.inc('fault.same_definition_registered_again')
             elif k == 'reg_invalid':
                 n = nodes[op['ctx']]
                 try:
@@ -522,6 +599,22 @@ def compare_all(nodes, stats):
                     return ('collect_functions-differs-from-layers',
                             {'ctx': i, 'name': fname, 'expected': exp,
                              'got': got})
+                exp = m_collect(n, fname, None, True)
+                got = [sorted(label(fd) for fd in layer) for layer in
+                       c.collect_functions(fname, use_convention=True)]
+                nprobe += 1
+                if got != exp:
+                    return ('collect_functions-with-convention-differs',
+                            {'ctx': i, 'name': fname, 'expected': exp,
+                             'got': got})
+                exp = m_get_functions(n, fname, True)
+                fs, ex = c.get_functions(fname, use_convention=True)
+                got = (sorted(label(fd) for fd in fs), bool(ex))
+                nprobe += 1
+                if got != exp:
+                    return ('get_functions-with-convention-differs',
+                            {'ctx': i, 'name': fname, 'expected': list(exp),
+                             'got': list(got)})
                 for kind, pred in (('F', lambda fd, ctx: fd.is_function),
                                    ('M', lambda fd, ctx: fd.is_method)):
                     exp = m_collect(n, fname, kind)
@@ -540,9 +633,11 @@ def compare_all(nodes, stats):
                     return ('get_functions-differs-from-own-layer',
                             {'ctx': i, 'name': fname, 'expected': list(exp),
                              'got': list(got)})
-            own = set(map(id, ownlayer(n)))
+            ownl = ownlayer(n)
             for spec, home in known[:12]:
-                exp = id(home) in own
+                exp = any(any(e['obj'] is spec
+                              for e in p.cell.funcs.get(spec.name, []))
+                          for p in ownl)
                 got = spec in c
                 nprobe += 1
                 if got != exp:
